@@ -411,6 +411,8 @@ class MemoryCache(CacheMixin):
         else:
             if state.metadata.get("status") != "ready":
                 return None
+            if getattr(state, "metadata_only", False):
+                return None
             return state.clone()
 
     def get_metadata(self, key):
@@ -429,8 +431,13 @@ class MemoryCache(CacheMixin):
 
     def store_metadata(self, metadata):
         key = metadata["query"]
-        self.storage[key] = self.storage.get(key, State())
-        self.storage[key].metadata = metadata
+        state = self.storage.get(key)
+        if state is None:
+            # Placeholder for an entry whose data has not been stored (yet)
+            state = State()
+            state.metadata_only = True
+            self.storage[key] = state
+        state.metadata = metadata
 
         return True
 
